@@ -154,6 +154,7 @@ func (rp *replayer) run(fn *ssa.Function, model map[string]any, label string) (*
 	if err := os.WriteFile(rf, data, 0o644); err != nil {
 		return nil, err
 	}
+	confirmLabel = label
 	out, err := runReplayBinary(bin, fn.Name(), rf, rp.dir)
 	if err == nil && label != "" && out.failedLabel == "" || (err == nil && label != "" && strings.HasPrefix(out.failedLabel, "!")) {
 		// concurrency harnesses (_race): a data race, a concurrent-map fatal error or a deadlock watchdog
@@ -166,11 +167,12 @@ func (rp *replayer) run(fn *ssa.Function, model map[string]any, label string) (*
 }
 
 var replayTier = "quick"
+var confirmLabel = ""
 
 func runReplayBinary(bin, harness, replayFile, dir string) (*replayOut, error) {
 	cmd := exec.Command(bin, "-test.run", "^TestZZReplay$", "-test.v", "-test.timeout", "120s")
 	cmd.Dir = dir
-	cmd.Env = append(os.Environ(), "ZZ_VERIF_REPLAY="+replayFile, "ZZ_HARNESS="+harness, "ZZ_TIER="+replayTier, "GORACE=halt_on_error=1")
+	cmd.Env = append(os.Environ(), "ZZ_VERIF_REPLAY="+replayFile, "ZZ_HARNESS="+harness, "ZZ_TIER="+replayTier, "GORACE=halt_on_error=1", "ZZ_CONFIRM="+confirmLabel)
 	var buf bytes.Buffer
 	cmd.Stdout = &buf
 	cmd.Stderr = &buf
